@@ -94,7 +94,11 @@ class Application:
         if hasattr(message, "session_id"):
             answer_msg.session_id = message.session_id
         if hasattr(message, "proxy_info"):
-            answer_msg.proxy_info = message.proxy_info
+            # a list of its own: the answer's list is the application's to edit
+            if isinstance(message.proxy_info, list):
+                answer_msg.proxy_info = list(message.proxy_info)
+            else:
+                answer_msg.proxy_info = message.proxy_info
 
         if self.is_auth_application:
             answer_msg.auth_application_id = self.application_id
